@@ -63,6 +63,8 @@ Leases ==
   \/ RandomElement(1..(IF Dup THEN 5 ELSE 8)) = 1 /\ CloseDB
   \/ OpenCh # {} /\ RandomElement(1..(IF Dup THEN 2 ELSE 4)) = 1 /\ \E c \in Pick(OpenCh) : CloseLease(c)
   \/ OpenDB
+  \* aimed: reopen while some channel's retained floor is above its last physical row
+  \/ (\E c \in Chans : ret[c].has /\ RowSeqs(c) # {} /\ ret[c].rmax > LastRow(c)) /\ CloseDB
 
 \* ---- appends
 Appends ==
@@ -135,6 +137,12 @@ Retention ==
   \/ OpenCh # {} /\ \E c \in Pick(OpenCh) : \E t \in Pick(0..MinOf(MaxSeq, Leo(c) + 2)), lim \in Pick({0, 1, 2}) : Trim(c, t, lim)
   \/ OpenCh # {} /\ \E c \in Pick(OpenCh) : Leo(c) > 0 /\ \E t \in Pick(1..Leo(c)), lim \in Pick({0, 1, 2}) : Trim(c, t, lim)
   \/ OpenCh # {} /\ \E c \in Pick(OpenCh) : ret[c].has /\ \E lim \in Pick({0, 1}) : Trim(c, ret[c].local, lim)
+  \* aimed: a boundary BEYOND the log end while rows are still physically there (the log end is then
+  \* the adopted boundary, not the last row) - adopted alone or by a bounded trim step
+  \/ LET S == {c \in OpenCh : RowSeqs(c) # {} /\ Leo(c) < MaxSeq} IN
+       S # {} /\ \E c \in Pick(S) : Adopt(c, Leo(c) + 1)
+  \/ LET S == {c \in OpenCh : RowSeqs(c) # {} /\ Leo(c) < MaxSeq} IN
+       S # {} /\ \E c \in Pick(S) : Trim(c, Leo(c) + 1, 1)
 
 \* ---- checkpoints
 Ckpts ==
